@@ -11,29 +11,33 @@ EXTENDS ClusterMutexContract, Sequences, Json, TLC, IOUtils
 
 TLog == ndJsonDeserialize(IOEnv.VERIF_TRACE)
 
-VARIABLE l
-tvars == <<cvars, l>>
+VARIABLES l,
+          exp     \* per process: the result that was observed for the pending Lock call (copied by the driver from
+                  \* the `ret` event onto the `inv` event): prunes the search, nothing else
+tvars == <<cvars, l, exp>>
 
 IsEvent(e) == l <= Len(TLog) /\ TLog[l].ev = e /\ l' = l + 1
 Ev == TLog[l]
 
 TReset == /\ IsEvent("reset")
           /\ holder' = "none" /\ cpc' = [p \in Procs |-> "idle"] /\ probe' = [p \in Procs |-> FALSE]
+          /\ exp' = [p \in Procs |-> FALSE]
 
 TInv(p) == /\ IsEvent("inv") /\ Ev.p = p
-           /\ \/ Ev.op = "lock" /\ CallLock(p, Ev.probe)
-              \/ Ev.op = "unlock" /\ CallUnlock(p)
+           /\ \/ Ev.op = "lock" /\ CallLock(p, Ev.probe) /\ exp' = [exp EXCEPT ![p] = Ev.r_ok]
+              \/ Ev.op = "unlock" /\ CallUnlock(p) /\ UNCHANGED exp
 
 TRet(p) == /\ IsEvent("ret") /\ Ev.p = p
            /\ \/ Ev.op = "lock" /\ Ev.ok /\ cpc[p] = "held" /\ UNCHANGED cvars
               \/ Ev.op = "lock" /\ ~Ev.ok /\ RetErr(p)
               \/ Ev.op = "unlock" /\ RetUnlock(p)
+           /\ UNCHANGED exp
 
-Lin(p) == (Grant(p) \/ Refuse(p) \/ Release(p)) /\ UNCHANGED l
+Lin(p) == ((exp[p] /\ Grant(p)) \/ (~exp[p] /\ Refuse(p)) \/ Release(p)) /\ UNCHANGED <<l, exp>>
 
 TNext == TReset \/ \E p \in Procs : TInv(p) \/ TRet(p) \/ Lin(p)
 
-TInit == l = 1 /\ CInit
+TInit == l = 1 /\ CInit /\ exp = [p \in Procs |-> FALSE]
 TSpec == TInit /\ [][TNext]_tvars
 
 ASSUME TLCSet(1, 0)
